@@ -51,17 +51,18 @@ def bind_world(world):
         LP.time = _NoSleep()
 
 
-def make_dongle(world, platform="ledger"):
+def make_dongle(world, platform="ledger", debug=False):
+    """debug: the managers' -D/--iodebug option (the flag every dongle class takes)"""
     bind_world(world)
     if platform == "ledger":
         Platform.set(Platform.LEDGER)
-        return H.HSM2Dongle(False)
+        return H.HSM2Dongle(debug)
     if platform == "sgx":
         from sgx.hsm2dongle import HSM2DongleSGX
         Platform.set(Platform.SGX)
-        return HSM2DongleSGX("sgxhost", 7777, False)
+        return HSM2DongleSGX("sgxhost", 7777, debug)
     Platform.set(Platform.X86)
-    return HT.HSM2DongleTCP("tcphost", 8888, False)
+    return HT.HSM2DongleTCP("tcphost", 8888, debug)
 
 
 class FixedPin:
@@ -74,11 +75,11 @@ class FixedPin:
         return False
 
 
-def make_protocol(world, v1=False, pin=None, platform="ledger", connected=True):
+def make_protocol(world, v1=False, pin=None, platform="ledger", connected=True, debug=False):
     """A real HSM2ProtocolLedger / HSM1ProtocolLedger on top of a real HSM2Dongle whose
     transport is the simulated world.  ``connected`` => dongle.connect() already done
     (what initialize_device leaves behind), without running the bring-up checks."""
-    dongle = make_dongle(world, platform)
+    dongle = make_dongle(world, platform, debug)
     proto = (LP1.HSM1ProtocolLedger if v1 else LP.HSM2ProtocolLedger)(pin or FixedPin(), dongle)
     if connected:
         dongle.connect()
